@@ -2,7 +2,7 @@
    The theorems quantify over the whole row list: a fault at ANY position and in any combination. *)
 From Coq Require Import List Arith Bool.
 Import ListNotations.
-From Flodym Require Import Base.ND Np.Einsum Model.Dims Model.Array Model.DF Proofs.DFProofs.
+From Flodym Require Import Base.ND Np.Einsum Model.Dims Model.Array Model.DF Proofs.DFProofs Proofs.ImportSpec.
 
 Section G.
 Variable R : Type.
@@ -36,7 +36,31 @@ Theorem C12_allow_extra_ignores_rows_with_unknown_items :
   forall ds om um am rows,
   import ds om um am true rows = import ds om um am false (filter (fun r => known ds (r_labels R r)) rows).
 Proof. exact (allow_extra_is_a_filter R rO). Qed.
+(* with default settings a table is accepted EXACTLY when its label combinations are pairwise different and known, there is one row per
+   entry and no value is empty; what is returned is the placement of the rows *)
+Theorem C12_default_settings_accept_exactly :
+  forall ds rows v, import ds false false false false rows = Ok v <-> accepted R ds rows /\ v = place R rO ds rows.
+Proof. exact (import_accepts_iff R rO). Qed.
+
+(* allow_missing_values: accepted exactly when the label combinations are pairwise different and known; the missing or empty entries
+   become zero and every present entry is placed under its labels *)
+Theorem C12_allow_missing_accepts_exactly :
+  forall ds rows v, import ds false false true false rows = Ok v <-> accepted_partial R ds rows /\ v = place R rO ds rows.
+Proof. exact (import_allow_missing_iff R rO). Qed.
+
+Theorem C12_allow_missing_zero_fills_and_places_by_label :
+  forall ds rows v, items_unique ds -> import ds false false true false rows = Ok v ->
+  length v = size (dshape ds) /\
+  forall idx, Forall2 lt idx (dshape ds) ->
+    (exists r, In r rows /\ r_labels R r = labels_of ds idx /\ get rO (dshape ds) v idx = val R rO r)
+    \/ ((forall r, In r rows -> r_labels R r <> labels_of ds idx) /\ get rO (dshape ds) v idx = rO).
+Proof.
+  intros ds rows v Hu E. apply (import_allow_missing_iff R rO) in E. destruct E as [Ha ->]. apply place_partial; assumption.
+Qed.
 End G.
+Print Assumptions C12_default_settings_accept_exactly.
+Print Assumptions C12_allow_missing_accepts_exactly.
+Print Assumptions C12_allow_missing_zero_fills_and_places_by_label.
 Print Assumptions C12_refuses_missing_dimension_column_and_unmatched_value_columns.
 Print Assumptions C12_refuses_unknown_item.
 Print Assumptions C12_refuses_duplicated_combination.
@@ -51,3 +75,9 @@ Example ex_C12_dup_before_filter :
   import_rows nat 0 false 0 ds false false false true rows = Err
   /\ import_rows nat 0 true 0 ds false false false true rows = Ok [2; 3].
 Proof. vm_compute. split; reflexivity. Qed.
+
+(* non-vacuity: two of four entries present (one of them empty), allow_missing_values *)
+Example ex_C12_allow_missing :
+  import_rows nat 0 true 0 [mk_dim 116 0 [2000; 2005]; mk_dim 114 1 [30; 31]] false false true false
+    [mk_row nat [2005; 30] (Some 3); mk_row nat [2000; 31] None] = Ok [0; 0; 3; 0].
+Proof. vm_compute. reflexivity. Qed.
